@@ -5,8 +5,7 @@ import UralModel.Model.Fingerprint
 
 Definitions only (they are also compiled into the driver, which evaluates them on what the
 real parser returned): the bridging relation `Reparses` between the canonical components and
-the re-parse of the printed canonical URL, the two excluded regions of the factorisation
-(`MistakeStable`, `DomainStable`), and the component-wise lower-casing `lowerParsed` that
+the re-parse of the printed canonical URL, and the component-wise lower-casing `lowerParsed` that
 relates what `fingerprint_url` parses (the lower-cased string) to what `normalize_url` parses.
 -/
 namespace Ural.C03
@@ -27,23 +26,6 @@ def reparse (c : Canonicalize.Comps) : Parsed :=
   { scheme := c.scheme, netloc := unsplitNetloc c.user c.pass c.host c.port, path := c.path,
     query := c.query, fragment := c.fragment.getD [], username := c.user, password := c.pass,
     hostname := c.host, port := c.port }
-
-/-- **excluded region 1** (genuine defect, `notes/fixes/c03-query-mistakes-after-unescaping.diff`):
-`fix_common_query_mistakes` runs on the still-escaped query, so it commutes with
-canonicalisation only when no `&amp;` is hidden behind an escape (`&a%6Dp;`) -/
-def MistakeStable (q : Str) : Prop :=
-  fixCommonQueryMistakes (canonQuery false q) = canonQuery false (fixCommonQueryMistakes q)
-
-instance (q : Str) : Decidable (MistakeStable q) := by unfold MistakeStable; infer_instance
-
-/-- **excluded region 2** (genuine defect, `notes/fixes/c03-domain-filter-on-decoded-hostname.diff`):
-the per-domain query filter is chosen from the hostname as the parser returned it, not from the
-decoded one -/
-def DomainStable (puny : Str → Str) (hostname : Option Str) : Prop :=
-  domainFilter (hostname.map (canonHost puny)) = domainFilter hostname
-
-instance (puny : Str → Str) (h : Option Str) : Decidable (DomainStable puny h) := by
-  unfold DomainStable; infer_instance
 
 /-! ## lower-casing, as `fingerprint_url` applies it: to the string, before cleaning -/
 
